@@ -47,6 +47,11 @@ const WIN: u64 = 0x3000;
 const B64: [u64; 9] = [0, 1, 0xff, 0x7fff_ffff, 0x8000_0000, 0xffff_ffff, 0x7fff_ffff_ffff_ffff, 0x8000_0000_0000_0000, 0xffff_ffff_ffff_ffff];
 
 fn base_state(big: bool) -> AState {
+    base_state_p(big, 0)
+}
+
+/// `pat` 1 fills the data window with bytes whose top bit is set, so that sign-extending loads see negative values
+fn base_state_p(big: bool, pat: u8) -> AState {
     let mut x = [0u64; 31];
     for (i, v) in x.iter_mut().enumerate() {
         *v = 0x0101_0101_0101_0101u64.wrapping_mul(i as u64 + 1) ^ 0x8000_0000_0000_0040;
@@ -57,7 +62,7 @@ fn base_state(big: bool) -> AState {
     }
     let mut mem = BTreeMap::new();
     for i in 0..0x200u64 {
-        mem.insert(WIN + i, (0x11 + i * 5) as u8);
+        mem.insert(WIN + i, if pat == 0 { (0x11 + i * 5) as u8 } else { 0xffu8 - ((i * 3) & 0x7f) as u8 });
     }
     for i in 0..0x80u64 {
         mem.insert(PC - 0x40 + i, (0x81 + i * 3) as u8);
@@ -132,8 +137,8 @@ fn states(w: u32, kind: Kind, big: bool, thorough: bool) -> Vec<AState> {
             }
         }
         Kind::Mem { offset } => {
-            for v in [0x1122_3344_5566_7788u64, 0x8000_0000_8000_80ff] {
-                let mut s = base_state(big);
+            for (pat, v) in [(0u8, 0x1122_3344_5566_7788u64), (1, 0x8000_0000_8000_80ff)] {
+                let mut s = base_state_p(big, pat);
                 set(&mut s, rn, (WIN + 0x100).wrapping_sub(offset as u64), true);
                 if rt != rn || rn == 31 {
                     set(&mut s, rt, v, false);
@@ -143,8 +148,8 @@ fn states(w: u32, kind: Kind, big: bool, thorough: bool) -> Vec<AState> {
             }
         }
         Kind::MemReg => {
-            for m in [0u64, 8, 0xffff_ffff_ffff_fff8, 0x0000_0001_0000_0008, 0xffff_fff8] {
-                let mut s = base_state(big);
+            for (k, m) in [0u64, 8, 0xffff_ffff_ffff_fff8, 0x0000_0001_0000_0008, 0xffff_fff8].into_iter().enumerate() {
+                let mut s = base_state_p(big, (k % 2) as u8);
                 set(&mut s, rn, WIN + 0x100, true);
                 if rm != rn {
                     set(&mut s, rm, m, false);
